@@ -341,7 +341,10 @@ class Run:
         mw = [m for m in fw._market_middleware if type(m).__name__ == "SimulatedMiddleware"][0]
         M = ",".join(":".join([str(market_num(m.market_id)), tokb(m.closed), nats(o._vidx for o in m.blotter),
                                 nats(o._vidx for o in m.blotter._live_orders), tokb(m.blotter.active),
-                                tokb(m.market_id in mw.markets)]) for m in fw.markets) or "."
+                                tokb(m.market_id in mw.markets),
+                                # the market's own list of applied runner removals (selection / handicap / adjustment factor)
+                                "+".join("%d@%s@%s" % (k[0], tok(k[1]), tok(k[2])) for k in mw._market_runner_removals.get(m.market_id, [])) or "."])
+                      for m in fw.markets) or "."
         K = ",".join(":".join([str(i)] + [str(getattr(self.txc(c), a)) for a in
                                           ("transaction_count", "failed_transaction_count", "current_transaction_count", "current_failed_transaction_count")])
                      for i, c in enumerate(self.clients)) or "."
